@@ -65,7 +65,7 @@ Proof.
   change 256 with (2 ^ 8). apply wrapU_range. lia.
 Qed.
 
-Lemma o2_byte_known q x L probe : qof L = q -> (L + 7) mod 8 <> 0 -> 0 <= L <= 57 -> 0 <= probe ->
+Lemma o2_byte_known q x L probe : qof L = q -> (L + 7) mod 8 <> 0 -> 0 <= L <= 63 -> 0 <= probe ->
   o2_byte (known q x) L probe = o2_byte x L probe.
 Proof.
   intros Hq Hnz HL Hp. unfold qof in Hq.
@@ -174,7 +174,7 @@ Proof. intros. rewrite Zminus_mod_idemp_l. f_equal. lia. Qed.
 (* reconstruct_exact for Open2N2: for EVERY 64-bit h, every L <= 57, every strictly larger new size, every displacement:
    no assertion fails, and the answer is the full getter's value or exactly the known bits of h *)
 Theorem o2_reconstruct st sh hp full bidx L newL idx h probe :
-  0 <= h < 2 ^ 64 -> 0 <= L <= 57 -> L < newL <= 63 -> 0 <= probe ->
+  0 <= h < 2 ^ 64 -> 0 <= L <= 63 -> L < newL <= 63 -> 0 <= probe ->
   hp idx = o2_byte h L probe -> sh idx = Gen_O2.pvCalcShortHash h ->
   bidx = (h mod 2 ^ L + tri probe) mod 2 ^ L ->
   Gen_O2.GetHashCodePart st sh hp full bidx L newL idx =
